@@ -21,7 +21,8 @@ def jobs(tier):
       Job("code-k5-noexc", M, "h_code", dict(C16_KOPS=5, C16_NEXC=0), shards=509, timeout=t),
       Job("code-k4-exc", M, "h_code", dict(C16_KOPS=4, C16_NEXC=1, C16_GAPS=1), shards=509, timeout=t,
           note="inline caches after every other instruction only"),
-      Job("code-k3-2exc", M, "h_code", dict(C16_KOPS=3, C16_NEXC=2), shards=127, timeout=t),
+      Job("code-k4-2exc", M, "h_code", dict(C16_KOPS=4, C16_NEXC=2, C16_GAPS=1), shards=509, timeout=t,
+          note="two disjoint exception-table entries (try/except followed by, or nested in, another)"),
       Job("real-programs", M, "h_real", dict(C16_NSTMT=22, C16_NWRAP=6), shards=251, timeout=t),
   ]
 
